@@ -229,6 +229,9 @@ theorem tie_ApplyVestingSchedules (c : Ctx) (aid : Nat) (v : AView) (hv : c.s.vi
   · have hne : ¬ ((v.a.schedules.length : Int) = 0) := by
       have := List.length_pos_iff.mpr he
       omega
+    have hlt : ¬ ((v.a.schedules.length : Int) - 1 < 0) := by
+      have := List.length_pos_iff.mpr he
+      omega
     have hie : v.a.schedules.isEmpty = false := by simpa using he
     cases hsp : splitLoop (c.s.bank (.pay aid) v.a.payDenom) v.a.schedules (c.s.bank (.pay aid) v.a.payDenom) with
     | none => simp [hsp] at hsplit
@@ -238,7 +241,7 @@ theorem tie_ApplyVestingSchedules (c : Ctx) (aid : Nat) (v : AView) (hv : c.s.vi
         ([] ++ [GEff.mk GName.sendCoins [GVal.addr (Addr.pay v.a.id), GVal.addr (Addr.vest v.a.id),
           GVal.coin ⟨v.a.payDenom, c.s.bank (.pay aid) v.a.payDenom⟩]]) parts (by simp) (by rw [hid]; exact hsp)
       simp only [hid] at hr
-      simp only [hne, hid, decide_false, Bool.false_eq_true, if_false, hr]
+      simp only [hne, hlt, hid, decide_false, Bool.false_eq_true, if_false, hr]
       simp only [runSettlePlan, List.nil_append, List.cons_append, runSettle_cons,
         runSettle_append, runSettle_nil, applySettle, dstOf, bind, Except.bind, hie, hsp,
         Bool.false_eq_true, if_false]
